@@ -566,10 +566,18 @@ def text_message_cases(draw):
         base = MG.build(desc).to_text()
     except Exception:  # seed text only; the oracle for this call is in run_*
         base = "id 1\nopcode QUERY\nrcode NOERROR\nflags RD\n;QUESTION\nexample. IN A\n"
-    k = draw(st.integers(0, 3))
+    k = draw(st.integers(0, 4))
     t = base if k == 0 else draw(soup(base))
     if k == 3:
         t = draw(soup(None, max_tokens=14))
+    if k == 4:
+        # one integer token of a well-formed message text replaced by a boundary number
+        nums = [mm for mm in re.finditer(r"(?<![\w.:-])\d+(?![\w.:-])", base)]
+        if nums:
+            mm = nums[draw(st.integers(0, len(nums) - 1))]
+            v = draw(st.sampled_from(["0", "255", "256", "4095", "4096", "65535", "65536", "2147483647", "2147483648", "4294967295", "4294967296",
+                                      "281474976710656", "99999999999999999999", "-1", "00", "0x10"]))
+            t = base[: mm.start()] + v + base[mm.end():]
     return {"text": t, "one_rr_per_rrset": draw(st.booleans())}
 
 
@@ -751,11 +759,11 @@ def run_atheris(case):
             sub = {"target": target, "bytes": data.hex()}
             kind = found[0].split("-")[0]
             if kind == "timeout":
-                raise Violation("hang", f"libFuzzer: {target} did not finish within 30 s on a {len(data)}-octet input", f"atheris-timeout:{target}", detail=sub)
+                raise Violation("hang", f"libFuzzer: {target} did not finish within 30 s on a {len(data)}-octet input", f"atheris-timeout:{target}", detail={"replay_case": sub})
             try:
                 fn(driver.decode(target, data))
             except Violation as v:
-                v.detail = sub
+                v.detail = {"replay_case": sub}
                 raise
             raise HarnessError(f"atheris {target}: saved input {found[0]} does not reproduce in-process:\n{p.stderr[-800:]}")
         if p.returncode != 0:
